@@ -224,13 +224,15 @@ def small_random(rng, nleaves: int, names: list[str], occs: list, depth: int = 2
 
 
 def flat_choices() -> list[tuple]:
-    """the fragment of theorem checkModel_refines_partial: choice{1,1} of 1..3 references to the plain
-    global elements a, b, c with every occurrence range of lib_cm.OCC_SMALL (9 723 models)"""
+    """the fragment of theorem checkModel_refines_partial: a choice of 1..3 references to the plain global
+    elements a, b, c with every occurrence range of lib_cm.OCC_SMALL; the root has every occurrence range
+    other than {0,0} for ≤ 2 members and {1,1} for 3 members (12 033 models)"""
     opts = [('e', n, lo, hi) for n in ('a', 'b', 'c') for lo, hi in cm.OCC_SMALL]
     out = []
     for k in (1, 2, 3):
         for items in itertools.product(opts, repeat=k):
-            out.append(('g', 'choice', 1, 1, list(items)))
+            for lo, hi in ([(1, 1)] if k == 3 else [o for o in cm.OCC_SMALL if o != (0, 0)]):
+                out.append(('g', 'choice', lo, hi, list(items)))
     return out
 
 
